@@ -378,6 +378,59 @@ func runC13Case(c *RunCtx, cs c13Case) {
 		fail("probeNotHandled", "a query event after the round produced %d query requests, %d loaded queries are cached", seen, wantProbe)
 	}
 	s.Settle()
+	// release and re-subscribe: with the last subscriber of a query resource
+	// gone the cache forgets the resource and every alias of it, while another
+	// query of the same resource keeps the event subscription cached; a new
+	// subscription with any of the raw queries is loaded from the service again
+	if s.ok {
+		keeper := "w=7&keep"
+		s.Req(cl, "subscribe.q.items?"+keeper, nil)
+		s.Quiesce()
+		answerAccess()
+		s.Quiesce()
+		if r := getFor(keeper); r != nil {
+			answerGet(r)
+		}
+		s.Settle()
+		rc := s.RC(cl)
+		for _, rid := range append(append([]string{}, rids...), intrRID) {
+			for n := rc.Direct[rid]; n > 0; n-- {
+				s.Req(cl, "unsubscribe."+rid, nil)
+			}
+		}
+		s.Settle()
+		for _, e := range g.Svc.VerifCache().VerifSnapshot() {
+			if e.Name != "q.items" {
+				continue
+			}
+			var qs []string
+			for q := range e.Queries {
+				qs = append(qs, q)
+			}
+			sort.Strings(qs)
+			if len(qs) != 1 || qs[0] != NormalizeQuery(keeper) {
+				fail("queryNotReleased", "after every subscription but %q was released the cache holds query entries %v", keeper, qs)
+			}
+		}
+		loaded := map[string]bool{}
+		for i, rid := range rids {
+			s.Req(cl, "subscribe."+rid, nil)
+			s.Quiesce()
+			answerAccess()
+			s.Quiesce()
+			n := NormalizeQuery(cs.Raw[i])
+			r := getFor(cs.Raw[i])
+			if r == nil && !loaded[n] {
+				fail("resubscribeNoGet", "subscription %s after its query resource was released is served without a get request", rid)
+			}
+			if r != nil {
+				answerGet(r)
+			}
+			loaded[n] = true
+			s.Settle()
+		}
+		c.Stat("c13_resubscribe_phases", 1)
+	}
 	// convergence and protocol violations found by the generic monitors
 	res := s.Finish()
 	for _, v := range res.Viol {
